@@ -791,3 +791,18 @@ M('c17-code-type-guard-raises-typeerror-only-for-str', 'C17', 'R4', WS, "       
   "        elif isinstance(code, str):\n")
 M('c17-code-reserved-block-ends-2000', 'C17', 'R4', WS, _RESERVED, "        elif 1015 <= code <= 2000 or 1004 <= code <= 1006:\n")
 M('c17-code-rejects-extension-range', 'C17', 'R4', WS, _RESERVED, "        elif 1015 <= code <= 2999 or 1004 <= code <= 1006:\n")
+
+# ---- wave 9
+# s9-c17-3 (R3): a generic-error handler that closes the socket itself with the configured code needs the fallback around that
+# very call (the cleanup helper owns it); a direct, unprotected close loses the 3011 fallback for servers rejecting the code
+_PY_WS = "        elif ws:\n            await self._ws_cleanup_on_error(ws)\n        else:\n"
+M('c17-python-handler-closes-directly', 'C17', 'R3', APP, _PY_WS,
+  "        elif ws:\n            await ws.close(self.ws_options.error_close_code)\n        else:\n")
+M('c17-python-handler-closes-directly-local-code', 'C17', 'R3', APP, _PY_WS,
+  "        elif ws:\n            code = self.ws_options.error_close_code\n            await ws.close(code)\n        else:\n")
+M('c17-disconnected-handler-closes-directly', 'C17', 'R3', APP,
+  "            '[FALCON] WebSocket client disconnected with code %i', error.code\n        )\n        await self._ws_cleanup_on_error(ws)\n",
+  "            '[FALCON] WebSocket client disconnected with code %i', error.code\n        )\n        await ws.close(self.ws_options.error_close_code)\n")
+M('c17-python-handler-direct-close-fallback-only-for-valueerror', 'C17', 'R3', APP, _PY_WS,
+  "        elif ws:\n            try:\n                await ws.close(self.ws_options.error_close_code)\n            except ValueError:\n"
+  "                await ws.close(_FALLBACK_WS_ERROR_CODE)\n        else:\n")
